@@ -26,6 +26,8 @@ type c17Op struct {
 	// SendFail: the transport refuses to send this request (ENOBUFS): nothing reaches the kernel, so no
 	// ACK will ever come for it and nothing may be left waiting for one
 	SendFail bool `json:"send_fails,omitempty"`
+	// Events: unsolicited audit records (sequence 0) queued ahead of this request's ACK
+	Events int `json:"unsolicited_records_before_ack,omitempty"`
 }
 
 type c17Case struct {
@@ -49,6 +51,9 @@ func (k *c17Case) String() string {
 		if o.SendFail {
 			sb.WriteString("(send fails)")
 		}
+		if o.Events > 0 {
+			fmt.Fprintf(&sb, "(%d events first)", o.Events)
+		}
 		if o.Kind == "getrules" {
 			fmt.Fprintf(&sb, "(%d)", o.N)
 		}
@@ -61,19 +66,28 @@ func (k *c17Case) String() string {
 	return sb.String()
 }
 
-type pend struct{ errno int }
+type pend struct{ errno, events int }
 
 func c17Check(c *mon.Ctx, k *c17Case) {
 	r := mon.NewRand(int64(k.Seed), 5)
 	sim := simkernel.New(k.StartSeq)
-	sim.AllowSeqZero = true   // no unsolicited events in these histories: a request may be numbered 0 (counter wrap)
+	hasEvents := false
+	for _, o := range k.Ops {
+		hasEvents = hasEvents || o.Events > 0
+	}
+	sim.AllowSeqZero = !hasEvents // without unsolicited records a request may be numbered 0 (counter wrap)
+	reqEvents := 0
 	errnoFor := map[int]int{} // request index -> errno
 	rulesFor := map[int][][]byte{}
 	reqErr := 0
 	reqRules := 0
 	sim.OnSend = func(s *simkernel.Sim, idx int, m simkernel.SentMsg) []simkernel.Step {
 		errnoFor[idx] = reqErr
-		st := []simkernel.Step{{Dgram: simkernel.Ack(m, syscall.Errno(reqErr))}}
+		var st []simkernel.Step
+		for i := 0; i < reqEvents; i++ {
+			st = append(st, simkernel.Step{Dgram: simkernel.Event(uint16(1300+i%30), fmt.Sprintf("audit(1.000:%d): queued ahead of the ACK", i))})
+		}
+		st = append(st, simkernel.Step{Dgram: simkernel.Ack(m, syscall.Errno(reqErr))})
 		if reqErr != 0 {
 			return st
 		}
@@ -121,7 +135,7 @@ func c17Check(c *mon.Ctx, k *c17Case) {
 		}
 	}
 	for i, op := range k.Ops {
-		reqErr, reqRules = op.Errno, op.N
+		reqErr, reqRules, reqEvents = op.Errno, op.N, op.Events
 		recv0, deliv0, empty0, sent0 := sim.NRecv, sim.NDeliver, sim.NEmpty, len(sim.Sent)
 		if op.SendFail {
 			wm := libaudit.NoWait
@@ -160,14 +174,15 @@ func c17Check(c *mon.Ctx, k *c17Case) {
 				fail("nowait-send-count", "op %d: NoWait setter sent %d requests", i, len(sim.Sent)-sent0)
 				return
 			}
-			outstanding = append(outstanding, pend{op.Errno})
+			outstanding = append(outstanding, pend{op.Errno, op.Events})
 			c.Add("nowait_requests", 1)
 		case "waitacks":
 			err := cl.WaitForPendingACKs()
 			// reference: consume from the front up to and including the first failing ACK
-			want, wantErrno := 0, 0
+			want, wantErrno, wantDgrams := 0, 0, 0
 			for want < len(outstanding) {
 				e := outstanding[want].errno
+				wantDgrams += outstanding[want].events + 1 // the records queued ahead of the ACK are read (and skipped) too
 				want++
 				if e != 0 {
 					wantErrno = e
@@ -185,8 +200,8 @@ func c17Check(c *mon.Ctx, k *c17Case) {
 				fail("re-waits-consumed-acks", "op %d: WaitForPendingACKs waited %d times on an empty socket (%d ACKs were outstanding; ACKs consumed by earlier calls must not be waited for again); returned %v", i, sim.NEmpty-empty0, len(outstanding), err)
 				return
 			}
-			if consumed != want {
-				fail("ack-consumption", "op %d: WaitForPendingACKs consumed %d ACK datagrams, want %d (outstanding before the call: %d, first error at position %d)", i, consumed, want, len(outstanding), want)
+			if consumed != wantDgrams {
+				fail("ack-consumption", "op %d: WaitForPendingACKs consumed %d datagrams, want %d (%d ACKs and the unsolicited records queued ahead of them; outstanding before the call: %d, first error at position %d)", i, consumed, wantDgrams, want, len(outstanding), want)
 				return
 			}
 			if wantErrno == 0 && err != nil {
@@ -210,6 +225,10 @@ func c17Check(c *mon.Ctx, k *c17Case) {
 					_, err = cl.GetStatus()
 				default:
 					err = setter(libaudit.WaitForReply, op.Kind == "setpid-wait")
+				}
+				if len(sim.Sent) != sent0+1 {
+					fail("waitreply-send-count", "op %d (%s): a WaitForReply command must put exactly one request on the wire whatever is still outstanding; it sent %d (returned %v)", i, op.Kind, len(sim.Sent)-sent0, err)
+					return
 				}
 				if op.Errno == 0 && err != nil {
 					fail("waitreply-with-pending-nowait", "op %d (%s): the kernel acknowledged this request with errno 0, but with %d NoWait ACKs still outstanding the call consumed the wrong ACK and returned %v", i, op.Kind, len(outstanding), err)
@@ -343,6 +362,7 @@ func c17Gen(r *mon.Rand, withK4 bool) *c17Case {
 		n = r.Range(20, 70)
 	}
 	outstanding := 0
+	withEvents := r.Chance(1, 5) // a fifth of the histories have unsolicited records queued ahead of ACKs
 	errnos := []int{0, 0, 0, 0, int(syscall.EPERM), int(syscall.EINVAL), int(syscall.EBUSY)}
 	for len(k.Ops) < n {
 		var op c17Op
@@ -361,6 +381,9 @@ func c17Gen(r *mon.Rand, withK4 bool) *c17Case {
 			} else if r.Chance(1, 8) {
 				op.SendFail, op.Errno = true, 0
 				outstanding--
+			}
+			if withEvents && !op.SendFail && r.Chance(1, 3) {
+				op.Events = mon.Pick(r, []int{1, 2, 5, 9, 10, 11, 30})
 			}
 			outstanding++
 		case x < 60:
